@@ -13,7 +13,7 @@ import sys
 import tempfile
 
 SEEDED = "/verif/seeded"
-EXTRA_CHECKS = {"C13-m4": ["C13", "C14"], "C20-m3": ["C20", "C05"], "C02-m1": ["C02", "C10"], "C13-m1": ["C13", "C05"], "C15-m2": ["C15", "C19"], "C20-m2": ["C20", "C01"]}
+EXTRA_CHECKS = {"C06-m6": ["C06", "C07"], "C13-m4": ["C13", "C14"], "C20-m3": ["C20", "C05"], "C02-m1": ["C02", "C10"], "C13-m1": ["C13", "C05"], "C15-m2": ["C15", "C19"], "C20-m2": ["C20", "C01"]}
 
 
 def sh(cmd, cwd=None, env=None, timeout=3600):
